@@ -30,6 +30,8 @@ import (
 	"github.com/openGemini/openGemini/engine"
 	"github.com/openGemini/openGemini/lib/util/lifted/influx/influxql"
 	"github.com/openGemini/openGemini/lib/util/lifted/influx/meta"
+	proto2 "github.com/openGemini/openGemini/lib/util/lifted/influx/meta/proto"
+	"github.com/openGemini/openGemini/lib/util/lifted/vm/protoparser/influx"
 
 	"verif/harness/engx"
 	"verif/harness/internal/hx"
@@ -763,7 +765,32 @@ func (h *history) readChecks(tag string) {
 		// listings
 		p := genPred(r)
 		kids := h.specKids(phys, p)
-		switch r.Intn(4) {
+		switch r.Intn(5) {
+		case 4:
+			// SHOW TAG VALUES CARDINALITY: EngineImpl.TagValuesCardinality counts the distinct values
+			// SearchTagValues returns for the keys
+			got := h.implTagVals(phys, p)
+			if strings.HasPrefix(got, "tv ") {
+				set := map[string]bool{}
+				for _, kv := range strings.Split(strings.TrimPrefix(got, "tv "), ";") {
+					if i := strings.IndexByte(kv, '='); i >= 0 && kv[i+1:] != "" {
+						for _, v := range strings.Split(kv[i+1:], "+") {
+							set[v] = true
+						}
+					}
+				}
+				got = fmt.Sprintf("n %d", len(set))
+			}
+			line := h.c.Emit(fmt.Sprintf("tvcard %s %s", phys, p.token()), got)
+			if listSpec {
+				set := map[string]bool{}
+				for _, k := range kids {
+					for _, v := range tagsOf(h.info[k].s) {
+						set[v] = true
+					}
+				}
+				h.check(line, tag, "tag-values-cardinality", got, fmt.Sprintf("n %d", len(set)))
+			}
 		case 0:
 			got := h.implSeries(phys, p)
 			line := h.c.Emit(fmt.Sprintf("series %s %s", phys, p.token()), got)
@@ -1212,6 +1239,36 @@ func (h *history) catOpL(op string, arg string) (string, int) {
 			} else {
 				ans = "name " + m.Name
 			}
+		case "addfield":
+			// Data.UpdateSchema, as the store's write path registers a new field
+			f := strings.Fields(arg)
+			typ := engx.FieldTypes[f[1]]
+			ans = catErr(h.cat.UpdateSchema("db0", "rp0", f[0], []*proto2.FieldSchema{{FieldName: &f[1], FieldType: &typ}}))
+		case "fieldkeys":
+			// SHOW FIELD KEYS: the schema of the measurement the name resolves to
+			m, e := h.cat.Measurement("db0", "rp0", arg)
+			if e != nil {
+				ans = catErr(e)
+			} else {
+				var ks []string
+				if m.Schema != nil {
+					for k := range *m.Schema {
+						ks = append(ks, k)
+					}
+				}
+				sort.Strings(ks)
+				ans = "fk " + strings.Join(ks, ",")
+			}
+		case "msts":
+			// SHOW MEASUREMENTS: Data.Measurements, logical names
+			var names []string
+			if ms, e := h.cat.Measurements("db0", "rp0"); e == nil {
+				for _, m := range ms.MstsInfo {
+					names = append(names, influx.GetOriginMstName(m.Name))
+				}
+			}
+			sort.Strings(names)
+			ans = "msts " + strings.Join(names, ",")
 		}
 	})
 	if perr != "" {
@@ -1246,6 +1303,13 @@ func (h *history) doDropMeasurement() {
 	}
 	l := live[h.r.Intn(len(live))]
 	phys := h.phys[l]
+	// the store registers the fields of a measurement in the catalogue when it first sees them
+	for _, f := range engx.FieldNames {
+		if h.r.Chance(50) {
+			h.catOp("addfield", l+" "+f)
+		}
+	}
+	h.catOp("fieldkeys", l)
 	_, line := h.catOpL("resolve", l)
 	if a := h.catOp("mmark", l); a != "ok" {
 		h.c.Violation(line, "", "mark measurement failed: "+a)
@@ -1253,7 +1317,24 @@ func (h *history) doDropMeasurement() {
 	if a := h.catOp("resolve", l); a != "err mst-notfound" {
 		h.c.Violation(line, h.taint, "a measurement marked deleted still resolves: "+a)
 	}
-	h.shardDropMst(phys)
+	if a, ln := h.catOpL("fieldkeys", l); a != "err mst-notfound" {
+		h.c.Violation(ln, h.taint, "SHOW FIELD KEYS still answers for a measurement marked deleted: "+a)
+	}
+	if a, ln := h.catOpL("msts", ""); strings.Contains(","+strings.TrimPrefix(a, "msts ")+",", ","+l+",") {
+		h.c.Violation(ln, h.taint, "SHOW MEASUREMENTS still lists a measurement marked deleted: "+a)
+	}
+	if h.r.Chance(30) && h.mergeFinish == nil {
+		// the drop meets a flush / an out-of-order merge that is writing a file of the measurement (race.go)
+		kind := "merge"
+		for k := range h.walInc {
+			if h.info[k].phys == phys {
+				kind = "flush"
+			}
+		}
+		h.shardDropMstRacing(phys, kind)
+	} else {
+		h.shardDropMst(phys)
+	}
 	h.catOp("mdrop", phys)
 	h.phys[l] = ""
 	if h.r.Chance(75) {
@@ -1266,6 +1347,9 @@ func (h *history) doDropMeasurement() {
 				h.c.Violation(line, h.taint, "a re-created measurement got the physical name of the dropped one: "+np)
 			}
 			h.phys[l] = np
+			if a, ln := h.catOpL("fieldkeys", l); a != "fk " {
+				h.c.Violation(ln, h.taint, "a re-created measurement starts with field keys: "+a)
+			}
 		}
 	}
 	h.kinds += "M"
@@ -1530,12 +1614,14 @@ func runHistory(c *hx.Ctx, r *hx.Rng, idx, maxOps int, purge bool) error {
 	h.doMergeEnd()
 	// catalogue epilogue: the mark / drop protocol of policy and database
 	for i, n := 0, 3+r.Intn(8); i < n; i++ {
-		ops := []string{"rpmark", "rpdrop", "rpcreate", "dbmark", "dbdrop", "dbcreate", "mcreate", "mmark", "resolve", "resolve"}
+		ops := []string{"rpmark", "rpdrop", "rpcreate", "dbmark", "dbdrop", "dbcreate", "mcreate", "mmark", "resolve", "resolve", "addfield", "fieldkeys", "msts"}
 		op := ops[r.Intn(len(ops))]
 		arg := ""
 		switch op {
-		case "mcreate", "mmark", "resolve":
+		case "mcreate", "mmark", "resolve", "fieldkeys":
 			arg = []string{"m", "n"}[r.Intn(2)]
+		case "addfield":
+			arg = []string{"m", "n"}[r.Intn(2)] + " " + engx.FieldNames[r.Intn(len(engx.FieldNames))]
 		}
 		a, _ := h.catOpL(op, arg)
 		if (op == "rpmark" || op == "dbmark") && a == "ok" {
